@@ -114,7 +114,7 @@ def draw_case(r, idx: int, max_k: int) -> Dict[str, Any]:
     docs: Dict[str, Any] = {}
     variant = "loop"
     if with_loop:
-        shape = G5.draw_shape(r, idx, 0, allow_repl_carried=False)   # that mechanism is C05's (known finding there)
+        shape = G5.draw_shape(r, idx, 0, allow_repl_carried=False, allow_extras=False)   # that mechanism is C05's (known finding there)
         main_txt, dw_txt = G5.render(shape)
         flowir = yaml.safe_load(main_txt)
         dowhile = yaml.safe_load(dw_txt)
